@@ -12,6 +12,16 @@ the parsed report, directory snapshots before/after. Compared with the model's p
 and file set (`c14.run`, fed with the declarations as the real parser produced them and the
 configuration as the real validation produced it).
 
+Several contexts of one API object (the generator instances are shared): streams of interleaved
+parse / generate (clean on/off) / report calls over two configurations with disjoint output directories
+(relative / absolute / split spellings mixed), observed call by call (write log slice, snapshot diff).
+Specification per call (`c14.callspec`, Lean) = the C14 statement for the context the call belongs to:
+every write below the output directories of *that* context's generators of the target, the report at
+*that* context's report path, nothing else created / changed / deleted, `clean` purges exactly these
+directories; the model (`c14.run` for the one target, from the files present before the call) predicts
+the call's write log and the files afterwards. `api_generate_lands_in_own_dirs` (Props/C14.lean) is the
+theorem: from any state of the API object, `generate` writes `<directory of the generating context>/<name>`.
+
 Specification on the implementation's observation (`c14.spec`, Lean): every write below a configured
 output directory (not `<out>/<out>/…`), nothing else created/changed, deletions only by `clean` below
 the cleaned directories, report == write log per generator with its directories, inputs == root ∪
@@ -45,6 +55,10 @@ THEOREMS = [
     "Pydjinni.SysC.genStep_preserves_outside",
     "Pydjinni.SysC.runTargets_preserves_outside",
     "Pydjinni.SysC.runTargets_creates_only_writes",
+    "Pydjinni.SysC.generateGens_files",
+    "Pydjinni.SysC.api_generate_lands_in_own_dirs",
+    "Pydjinni.SysC.api_generate_under_own_out",
+    "Pydjinni.SysC.legacy_generate_lands_in_foreign_dir",
 ]
 LEVEL = "proof"
 TRUSTED = ["sysworker.py adapter: dumps of the validated configuration and of the parser's declaration list are the model's inputs",
@@ -190,22 +204,19 @@ def compare(job, meta, obs, m):
     return diffs
 
 
-def evaluate(ctx, job, meta, obs, tables):
-    """-> (model answer, spec answer, python-side failures)"""
+def requests(job, meta, obs, tables):
     req = model_request(job, meta, obs, tables)
-    m = ctx.driver.one(req)
-    if "error" in m:
-        raise RuntimeError(f"driver error {m}")
     R = obs["root"]
     sreq = {**req, "op": "c14.spec", "impl": impl_view(job, meta, obs),
             "expectIdl": [os.path.normpath(os.path.join(R, p)) for p in meta["reads"]],
             "expectExt": [os.path.normpath(os.path.join(R, p)) for p in meta["exts"]]}
-    s = ctx.driver.one(sreq)
-    if "error" in s:
-        raise RuntimeError(f"driver error {s}")
+    return [req, sreq]
+
+
+def python_side(job, obs):
     pyfails = []
     for c, rec in zip(job["calls"], obs["calls"]):
-        if not rec["ok"]:
+        if not rec["ok"] and not rec.get("skipped"):
             pyfails.append({"key": "run-failed:" + (rec["exc"] or {}).get("cls", "diagnostics"), "detail": json.dumps(rec.get("exc") or rec["diags"][:2])[:300]})
     if not obs.get("reports"):
         pyfails.append({"key": "report-not-written", "detail": ""})
@@ -215,7 +226,163 @@ def evaluate(ctx, job, meta, obs, tables):
             pyfails.append({"key": "report-unreadable", "detail": str(rp["valid"])})
         elif rp["valid"] is not True:
             pyfails.append({"key": "report-schema", "detail": str(rp["valid"])})
-    return m, s, pyfails
+    return pyfails
+
+
+def evaluate_many(ctx, items, tables):
+    """items: [(job, meta, obs)] -> [(model answer, spec answer, python-side failures)]; one driver process for all"""
+    reqs = [q for job, meta, obs in items for q in requests(job, meta, obs, tables)]
+    answers = ctx.driver.batch(reqs)
+    for a in answers:
+        if "error" in a:
+            raise RuntimeError(f"driver error {a}")
+    return [(answers[2 * i], answers[2 * i + 1], python_side(job, obs)) for i, (job, meta, obs) in enumerate(items)]
+
+
+def evaluate(ctx, job, meta, obs, tables):
+    """-> (model answer, spec answer, python-side failures)"""
+    return evaluate_many(ctx, [(job, meta, obs)], tables)[0]
+
+
+# ---------------------------------------------------------------------------------------------------
+# several configured contexts of ONE API object (the generator instances are shared by all of them)
+# ---------------------------------------------------------------------------------------------------
+
+MULTI_SHAPES = ["AB.a.b", "AB.b.a", "A.a.B.a.b", "AB.b.A2.a.a2", "random"]
+
+
+def make_multi_case(seed_key: str, shape: str | None = None):
+    """one API object, two configurations with disjoint output directories (different spellings: relative / absolute /
+    split mixes, different report files), two programs, an interleaved stream of parse / generate (with and without
+    clean) / report calls; every call is observed on its own (write log slice, snapshot diff)."""
+    r = random.Random(seed_key)
+    pgp = sysgen.ProgGen(r, stress=r.choice(["plain", "plain", "mixed"]), multi_file=r.random() < 0.3, with_extern=r.random() < 0.2, max_decls=r.choice([2, 4]))
+    p = pgp.program()
+    pgq = sysgen.ProgGen(r, stress="plain", max_decls=r.choice([2, 3]))
+    files = dict(p["files"])
+    files["proj/q.pydjinni"] = pgq.body(pgq.max_decls)
+    roots = [p["root"], "proj/q.pydjinni"]
+    cwd = r.choice(CWDS)
+    shared = r.choice(sysgen.TARGETS)                     # both contexts configure (at least) this target: same generator instances
+    tlists = []
+    for _ in range(2):
+        ts = [shared] + [t for t in r.sample(sysgen.TARGETS, r.choice([0, 1, 2])) if t != shared]
+        r.shuffle(ts)
+        tlists.append(ts)
+    kinds = r.sample(sysgen.OUT_KINDS, 2)
+    inc = os.path.relpath("inc", cwd) if r.random() < 0.6 else "{ROOT}/inc"
+    fa, fb = r.sample(FORMATS, 2)
+    rep_a = r.choice([f"processed_a.{fa}", "{ROOT}/abs_report_a." + fa])
+    rep_b = r.choice([f"reports/out/files_b.{fb}", "{ROOT}/abs_report_b." + fb])
+    opt_a = sysgen.make_options(r, tlists[0], out_kind=kinds[0], out_root="genA", naming="default", report=rep_a, include_dirs=[inc])
+    opt_b = sysgen.make_options(r, tlists[1], out_kind=kinds[1], out_root=r.choice(["genB", "elsewhere/genB"]), naming=r.choice(["default", "random"]),
+                                report=rep_b, include_dirs=[inc])
+    options = [opt_a, opt_b]
+    spell = lambda f: os.path.relpath(f, cwd) if r.random() < 0.6 else "{ROOT}/" + f
+    shape = shape or r.choice(MULTI_SHAPES)
+    calls, origin = [], []          # origin[k] = (context, program) of parse result k
+
+    def parse(c, prog):
+        calls.append({"op": "parse", "ctx": c, "idl": spell(roots[prog])})
+        origin.append((c, prog))
+        return len(origin) - 1
+
+    def gen(k, clean=None):
+        calls.append({"op": "generate", "gc": k, "target": r.choice(tlists[origin[k][0]]), "clean": r.random() < 0.5 if clean is None else clean})
+
+    def report(k):
+        calls.append({"op": "report", "gc": k})
+    if shape == "AB.a.b":
+        a, b = parse(0, 0), parse(1, 1)
+        gen(a), gen(a), gen(b), report(a), report(b)
+    elif shape == "AB.b.a":
+        a, b = parse(0, 0), parse(1, 1)
+        gen(b), gen(a, clean=True), report(b), gen(b, clean=True), gen(a)
+    elif shape == "A.a.B.a.b":
+        a = parse(0, 0)
+        gen(a)
+        b = parse(1, r.choice([0, 1]))
+        gen(a, clean=True), gen(b), gen(a), report(a)
+    elif shape == "AB.b.A2.a.a2":
+        a, b = parse(0, 0), parse(1, 1)
+        gen(b)
+        a2 = parse(0, 1)
+        gen(a), gen(b, clean=True), gen(a2), report(b), report(a2)
+    else:
+        parse(r.choice([0, 1]), r.choice([0, 1]))
+        for _ in range(r.choice([5, 7, 9])):
+            x = r.random()
+            if x < 0.3:
+                parse(r.choice([0, 1]), r.choice([0, 1]))
+            elif x < 0.42:
+                report(r.randrange(len(origin)))
+            else:
+                gen(r.randrange(len(origin)))
+    pre = {"README.txt": "keep me", "proj/notes.txt": "keep me too", "gen/keep.txt": "outside"}
+    for o in options:
+        for d in out_dirs(cwd, o):
+            pre[f"{d}/stale_{len(pre)}.hpp"] = "stale"
+            pre[f"{d}/old/deep/stale.txt"] = "stale"
+            pre[f"{d}x/sibling.txt"] = "sibling of an output directory"
+            pre[f"{os.path.dirname(d)}/beside_{len(pre)}.txt"] = "beside"
+    job = {"files": files, "pre": pre, "cwd": cwd, "contexts": options, "calls": calls, "snapshot_calls": True}
+    # a generate call whose context is not the one that parsed last
+    last, stale = None, 0
+    for c in calls:
+        if c["op"] == "parse":
+            last = c["ctx"]
+        elif c["op"] == "generate" and origin[c["gc"]][0] != last:
+            stale += 1
+    meta = {"shape": shape, "out_kinds": kinds, "cwd": cwd, "targets": tlists, "origin": origin, "stale_context_generates": stale,
+            "features": sorted(set(p["features"]) | pgq.features)}
+    return job, meta
+
+
+def evaluate_multi(ctx, job, meta, obs, tables):
+    """per call: the C14 statement itself for the context the call belongs to (`c14.callspec`), and the model's
+    prediction for that call alone (`c14.run` for one target from the files that were there before the call)"""
+    R = obs["root"]
+    cwd_abs = os.path.normpath(os.path.join(R, job["cwd"]))
+    fails, diffs, sreqs, mreqs, idxs = [], [], [], [], []
+    defs_of = {}
+    k = -1
+    for idx, (call, rec) in enumerate(zip(job["calls"], obs["calls"])):
+        if call["op"] == "parse":
+            k += 1
+            defs_of[k] = rec.get("defs", [])
+            c = call["ctx"]
+        else:
+            c = meta["origin"][call["gc"]][0]
+        if not rec["ok"] and not rec.get("skipped"):
+            fails.append({"key": "run-failed:" + (rec["exc"] or {}).get("cls", "diagnostics"), "call": idx,
+                          "detail": f"call {idx} {call}: " + json.dumps(rec.get("exc") or rec["diags"][:2])[:300]})
+        base = {"cwd": cwd_abs, "gens": obs["cfg"][c], "targets": [call["target"]] if call["op"] == "generate" else [],
+                "clean": bool(call.get("clean")), "supportLib": obs["meta"][c]["supportLib"], "support": tables["support"],
+                "defs": defs_of.get(call.get("gc"), []) if call["op"] == "generate" else [],
+                "report": obs["meta"][c]["report"] if call["op"] == "report" else None, "reads": [], "exts": [], "before": rec["existing"]}
+        sreqs.append({**base, "op": "c14.callspec", "impl": {"log": [e[1] for e in rec["log"]], "created": rec["created"], "deleted": rec["deleted"]}})
+        mreqs.append({**base, "op": "c14.run"})
+        idxs.append((idx, call, rec, c))
+    answers = ctx.driver.batch(sreqs + mreqs)
+    for a in answers:
+        if "error" in a:
+            raise RuntimeError(f"driver error {a}")
+    for (idx, call, rec, c), sa, ma in zip(idxs, answers[:len(sreqs)], answers[len(sreqs):]):
+        for f in sa["fails"]:
+            fails.append({"key": f["key"], "call": idx,
+                          "detail": f"call {idx} {call['op']}({call.get('target', '')}{', clean' if call.get('clean') else ''}) of context {c} "
+                                    f"[calls before: {[(x['op'], x.get('ctx', x.get('gc'))) for x in job['calls'][:idx]]}]: {f['detail'][:200]}"})
+        if call["op"] == "parse":
+            continue
+        ilog = sorted(e[1] for e in rec["log"])
+        if ilog != sorted(ma["log"]):
+            diffs.append({"call": idx, "what": "write log of the call (multiset of paths)", "only_impl": sorted(set(ilog) - set(ma["log"]))[:4],
+                          "only_model": sorted(set(ma["log"]) - set(ilog))[:4]})
+        after = sorted((set(rec["existing"]) - set(rec["deleted"])) | set(rec["created"]))
+        if after != sorted(ma["after"]):
+            diffs.append({"call": idx, "what": "files on disk after the call", "only_impl": sorted(set(after) - set(ma["after"]))[:4],
+                          "only_model": sorted(set(ma["after"]) - set(after))[:4]})
+    return fails, diffs
 
 
 CORPUS = [
@@ -245,12 +412,21 @@ def run(ctx):
     for i in range(n):
         key = f"{ctx.seed}/c14/{i}"
         cases.append(make_case(key, ctx.quick) + (key, None))
-    results = sysgen.run_jobs(ctx, [c[0] for c in cases], tag="c14")
+    mcases = []
+    for sh in MULTI_SHAPES:
+        key = f"{ctx.seed}/c14/multi/shape/{sh}"
+        mcases.append(make_multi_case(key, sh) + (key,))
+    for i in range(ctx.n(45, 500)):
+        key = f"{ctx.seed}/c14/multi/{i}"
+        mcases.append(make_multi_case(key) + (key,))
+    allres = sysgen.run_jobs(ctx, [c[0] for c in cases] + [c[0] for c in mcases], tag="c14")
+    results, mresults = allres[:len(cases)], allres[len(cases):]
     breaks = []
     for (job, meta, key, forced), obs in zip(cases, results):
         if "fatal" in obs:
             raise RuntimeError(f"worker failed on {key}: {obs['fatal']}")
-        m, s, pyfails = evaluate(ctx, job, meta, obs, tables)
+    evaluated = evaluate_many(ctx, [(job, meta, obs) for (job, meta, key, forced), obs in zip(cases, results)], tables)
+    for (job, meta, key, forced), obs, (m, s, pyfails) in zip(cases, results, evaluated):
         nfiles = sum(len(c["log"]) for c in obs["calls"])
         ctx.count(key=json.dumps([meta["out_kind"], meta["cwd"], meta["idl_abs"], meta["fmt"], meta["report"], meta["clean"], meta["targets"], meta["features"]]),
                   nontrivial=nfiles > 1, sample={"targets": meta["targets"], "out": meta["out_kind"], "cwd": meta["cwd"], "files_written": nfiles})
@@ -270,6 +446,29 @@ def run(ctx):
         d = compare(job, meta, obs, m)
         if d:
             breaks.append({**replay, "differences": d})
+    # ---- several contexts of one API object --------------------------------------------------------
+    for (job, meta, key), obs in zip(mcases, mresults):
+        if "fatal" in obs:
+            raise RuntimeError(f"worker failed on {key}: {obs['fatal']}")
+        fails, diffs = evaluate_multi(ctx, job, meta, obs, tables)
+        ngen = sum(1 for c in job["calls"] if c["op"] == "generate")
+        ctx.count(key=json.dumps(["multi", meta["shape"], meta["out_kinds"], meta["cwd"], meta["targets"], [(c["op"], c.get("ctx", c.get("gc")), c.get("clean")) for c in job["calls"]]]),
+                  nontrivial=meta["stale_context_generates"] > 0,
+                  sample={"shape": meta["shape"], "out": meta["out_kinds"], "cwd": meta["cwd"], "targets": meta["targets"], "calls": len(job["calls"])})
+        ctx.stat("multi_streams")
+        ctx.stat("multi_shape=" + meta["shape"])
+        ctx.stat("multi_calls", len(job["calls"]))
+        ctx.stat("multi_generate_calls", ngen)
+        ctx.stat("multi_generates_from_a_context_that_did_not_parse_last", meta["stale_context_generates"])
+        ctx.stat("multi_clean_generates", sum(1 for c in job["calls"] if c.get("clean")))
+        ctx.stat("multi_files_written", sum(len(c["log"]) for c in obs["calls"]))
+        for kd in meta["out_kinds"]:
+            ctx.stat("multi_out_kind=" + kd)
+        replay = {"kind": "multi", "seed_key": key, "job": job, "meta": meta}
+        for f in fails:
+            ctx.report("multi:" + f["key"], f"{f['key']}: {f['detail'][:400]}", {**replay, "failure": f})
+        if diffs:
+            breaks.append({**replay, "differences": diffs})
     ctx.stats["correspondence_breaks"] = len(breaks)
     if breaks and not ctx.violations:
         ctx.report("correspondence", "path/report model and implementation disagree; the C14 specification holds on every sampled run",
@@ -287,6 +486,11 @@ def run(ctx):
 def replay(ctx, body):
     job, meta = body["job"], body["meta"]
     tables = sysgen.live_tables(ctx)
+    if body.get("kind") == "multi":
+        obs = sysgen.run_jobs(ctx, [job], workers=1, tag="c14r")[0]
+        fails, diffs = evaluate_multi(ctx, job, meta, obs, tables)
+        print(json.dumps({"failures": fails[:10], "model_vs_impl": diffs[:5]}, indent=1)[:4000])
+        return not fails
     obs = sysgen.run_jobs(ctx, [job], workers=1, tag="c14r")[0]
     m, s, pyfails = evaluate(ctx, job, meta, obs, tables)
     print(json.dumps({"spec": s, "python_side": pyfails, "model_vs_impl": compare(job, meta, obs, m)}, indent=1)[:4000])
